@@ -14,8 +14,12 @@ Trace == ndJsonDeserialize(IOEnv.TRACE)
 
 VARIABLES l, bad, drift
 Init == l = 1 /\ bad = <<>> /\ drift = <<>>
+\* a rejected msgnames event is printed with the specification's explanation of the declaration (which repetitions it
+\* predicts and why), so that the runner can attribute every real repetition to a known naming defect or to none
+Explain(e) == IF e.op # "msgnames" THEN TRUE ELSE PrintT("@@" \o ToJson([l |-> l, why |-> Why(MsgOf(e))]))
 Next == /\ l <= Len(Trace)
         /\ bad' = IF Allowed(Trace[l]) THEN bad ELSE Append(bad, l)
+        /\ (IF Allowed(Trace[l]) THEN TRUE ELSE Explain(Trace[l]))
         /\ drift' = IF Drift(Trace[l]) THEN Append(drift, l) ELSE drift
         /\ l' = l + 1
         /\ TLCSet(1, <<l + 1, bad', drift'>>)
